@@ -1,5 +1,8 @@
 SPECIFICATION GSpecR
 CONSTANTS
+  STALL = {}
+  LateResponseOK = TRUE
+  STALLOFF = {9000, 9001, 9002, 9003, 9004, 9005, 1, 120, 170, 300}
   REQ = {1, 2, 3, 4}
   T = 100
   ACCEPT = {0, 50, 100, 150}
